@@ -56,10 +56,14 @@ func (o op) request(h *pdpb.RequestHeader) *pdpb.BootstrapRequest {
 	rg := &metapb.Region{Id: rid, Peers: []*metapb.Peer{{Id: pid, StoreId: sid}}}
 	req := &pdpb.BootstrapRequest{Header: h, Store: st, Region: rg}
 	switch o.PK {
+	// every malformed kind violates exactly one clause of checkBootstrapRequest (as far as possible), so that a
+	// dropped clause lets the request through
 	case "nostore":
 		req.Store = nil
+		rg.Peers[0].StoreId = 0
 	case "zerostore":
 		st.Id = 0
+		rg.Peers[0].StoreId = 0
 	case "noregion":
 		req.Region = nil
 	case "startkey":
@@ -89,8 +93,10 @@ func (o op) payloadCoq() string {
 	switch o.PK {
 	case "nostore":
 		store = "None"
+		peers[0] = fmt.Sprintf("Peer %s 0%%Z", coqfmt.Z(pid))
 	case "zerostore":
 		store = "(Some 0%Z)"
+		peers[0] = fmt.Sprintf("Peer %s 0%%Z", coqfmt.Z(pid))
 	case "noregion":
 		region = "None"
 	case "startkey":
@@ -432,7 +438,13 @@ func classifyWrong(err error, notBoot bool) string {
 	return "BAccepted"
 }
 
-func (w *world) callWrong(name string) string {
+func (w *world) callWrong(name string) (ob string) {
+	// a handler that got past its validation may trip over the otherwise empty request: that is "accepted"
+	defer func() {
+		if r := recover(); r != nil {
+			ob = "BAccepted"
+		}
+	}()
 	h := w.header(true)
 	h.SenderId = w.x.S.GetLeader().GetMemberId()
 	switch name {
@@ -444,7 +456,8 @@ func (w *world) callWrong(name string) string {
 		nb := st.last != nil && st.last.GetHeader().GetError().GetType() == pdpb.ErrorType_NOT_BOOTSTRAPPED
 		return classifyWrong(err, nb)
 	case "SyncRegions":
-		return classifyWrong(w.x.S.SyncRegions(&syncStream{fakeStream: fakeStream{ctx: w.ctx}, req: &pdpb.SyncRegionRequest{Header: h}}), false)
+		return classifyWrong(w.x.S.SyncRegions(&syncStream{fakeStream: fakeStream{ctx: w.ctx}, req: &pdpb.SyncRegionRequest{Header: h,
+			Member: &pdpb.Member{Name: "verif", MemberId: 1, ClientUrls: []string{"http://127.0.0.1:1"}}}}), false)
 	}
 	m := reflect.ValueOf(w.x.S).MethodByName(name)
 	if !m.IsValid() || m.Type().NumIn() != 2 {
@@ -692,6 +705,57 @@ func directed(handlers []string) [][]op {
 	return all
 }
 
+// thorough tier: a real leader change (the leadership is reset, the member steps down, stops its raft
+// cluster, campaigns again and reloads the cluster from etcd) and a real restart of the member on the same
+// data directory. Bootstrap must stay refused, the records and the cluster id must be the same.
+func (w *world) realLeaderChangeAndRestart(caseNo int) *srv15.Srv {
+	w.reset(caseNo)
+	var c caseRec
+	if ob := w.step(&c, op{K: "boot", T: 0, PK: "valid"}); ob != "BOk" {
+		panic("thorough: bootstrap failed: " + ob)
+	}
+	before := w.view()
+	id := w.x.S.ClusterID()
+	check := func(what string, x *srv15.Srv) {
+		deadline := time.Now().Add(30 * time.Second)
+		for x.S.GetRaftCluster() == nil && time.Now().Before(deadline) {
+			time.Sleep(20 * time.Millisecond)
+		}
+		w.x = x
+		r, err := x.S.IsBootstrapped(w.ctx, &pdpb.IsBootstrappedRequest{Header: w.header(false)})
+		if err != nil || !r.GetBootstrapped() {
+			w.R.Violate("C20:bootstrap-state-lost:"+what, fmt.Sprintf("IsBootstrapped = %v, %v after %s", r.GetBootstrapped(), err, what), c)
+		}
+		r2, err := x.S.Bootstrap(w.ctx, op{K: "boot", PK: "valid", N: 77}.request(w.header(false)))
+		if ob := bootObs(bres{r2, err}); ob != "BAlready" && ob != "BConflict" {
+			w.R.Violate("C20:bootstrapped-twice:"+what, "a Bootstrap request after "+what+" was answered "+ob, c)
+		}
+		if v := w.view(); v != before {
+			w.R.Violate("C20:stored-records-changed:"+what, "records before: "+before+" after: "+v, c)
+		}
+		if x.S.ClusterID() != id {
+			w.R.Violate("C20:cluster-id-changed:"+what, fmt.Sprintf("cluster id %d became %d after %s", id, x.S.ClusterID(), what), c)
+		}
+		w.R.Count("thorough:" + what)
+	}
+	// 1. real leader change
+	w.x.S.GetMember().ResetLeader()
+	time.Sleep(1500 * time.Millisecond)
+	if err := w.x.WaitLeader(30 * time.Second); err != nil {
+		panic(err)
+	}
+	check("leader-change", w.x)
+	// 2. real restart on the same data directory
+	old := w.x
+	old.Stop()
+	nx, err := srv15.StartWith(old.Cfg)
+	if err != nil {
+		panic(err)
+	}
+	check("restart", nx)
+	return nx
+}
+
 func main() {
 	seed := flag.Uint64("seed", 1, "")
 	n := flag.Int("n", 150, "number of generated cases")
@@ -837,6 +901,10 @@ func main() {
 		}
 	}
 	w.reset(caseNo)
+	if *tier == "thorough" && *replay == "" {
+		nx := w.realLeaderChangeAndRestart(caseNo + 1)
+		defer nx.Close()
+	}
 	if err := cf.Flush(); err != nil {
 		panic(err)
 	}
